@@ -12,10 +12,14 @@ func clearlyBelow(a, b int64) bool { return a*65536 < b*65535 }
 func clearlyAbove(a, b int64) bool { return a*65535 > b*65536 }
 
 // VerifHarness_C06: direction and taint rate follow the utilisation bands.
-// shape: [nodes, pods, class menu, cordon symbolic(0/1), triggers (0 none, 1 scale_on_starve, 2 max_node_age), memory-bound (0/1), prior uneventful scan (0/1), auto-discovered bounds (0/1)]
+// shape: [nodes, pods, class menu, cordon symbolic(0/1), triggers (0 none, 1 scale_on_starve, 2 max_node_age), memory-bound (0/1), prior uneventful scan (0/1), auto-discovered bounds (0/1), 64 TiB nodes (0/1)]
 func VerifHarness_C06() {
 	N, P, menu, cord, trig := verifShape(0), verifShape(1), verifShape(2), verifShape(3), verifShape(4)
 	w := newWorld(0)
+	if verifShape(8) == 1 {
+		w.memPerNode = 64 << 40 // very large machines: a group whose memory totals run into the hundreds of TiB
+		w.memUnit = 1 << 30
+	}
 	o := groupOpts(0)
 	th := thresholdMenu[verifChoice("thresholds", len(thresholdMenu))]
 	o.TaintLowerCapacityThresholdPercent, o.TaintUpperCapacityThresholdPercent, o.ScaleUpThresholdPercent = th.lower, th.upper, th.up
@@ -68,9 +72,14 @@ func VerifHarness_C06() {
 
 	normal := verifAnd(verifAnd(minEff <= s.total, s.total <= maxEff), verifAnd(s.untainted >= minEff, s.untainted > 0))
 	lo, up, su := int64(th.lower), int64(th.upper), int64(th.up)
+	memCap := s.memCap
 	c, m := 100*s.cpuReq, 100*s.memReq
-	below := func(t int64) bool { return verifAnd(clearlyBelow(c, t*s.cpuCap), clearlyBelow(m, t*s.memCap)) }
-	atLeast := func(t int64) bool { return verifOr(clearlyAbove(c, t*s.cpuCap), clearlyAbove(m, t*s.memCap)) }
+	if w.memUnit > 1 {
+		// every memory figure is a whole number of units: compare in units (exact, and inside int64)
+		m, memCap = 100*(s.memReq/w.memUnit), s.memCap/w.memUnit
+	}
+	below := func(t int64) bool { return verifAnd(clearlyBelow(c, t*s.cpuCap), clearlyBelow(m, t*memCap)) }
+	atLeast := func(t int64) bool { return verifOr(clearlyAbove(c, t*s.cpuCap), clearlyAbove(m, t*memCap)) }
 	bandFast := verifAnd(normal, below(lo))
 	bandSlow := verifAnd(normal, verifAnd(atLeast(lo), below(up)))
 	bandIdle := verifAnd(normal, verifAnd(atLeast(up), below(su)))
